@@ -70,8 +70,8 @@ REGISTRY = {
              explanation='PROVED: the GroupedList operations the merge loop is made of (group, append, sort_by, get_group, values) meet their contracts. BOUNDED: ChainedDiscretizer on seeded small '
                          'hierarchies with leaf frequencies placed around min_freq: known_values complete, every hierarchy value still present, a value keeps its own modality iff frequent, rare values merged '
                          'into an ancestor, rare intermediate groups merged further up, unknown values raise / are merged with the missing values, transform outputs the group leader.'),
- 'C14': dict(level='other', P=[], R=['rtc.c14_selectors'],
-             explanation='BOUNDED: select of ClassificationSelector / RegressionSelector (default measures and filters) against an oracle that recomputes chi2-based Tschuprow T, Kruskal-Wallis H, '
+ 'C14': dict(level='other', P=[('contracts.measures', None)], R=['rtc.c14_selectors'],
+             explanation='PROVED: the arithmetic and bookkeeping of chi2_measure, cramerv_measure and tschuprowt_measure over opaque pandas / scipy values: V = sqrt(chi2/n/(min(r,c)-1)), T = sqrt(chi2/n/sqrt((r-1)(c-1))) or 0 when a dimension is 1, the chi2 statistic carried in the measurement; the overload with a caller-supplied chi2_statistic exhibits the known finding D10 (unbound local). BOUNDED: select of ClassificationSelector / RegressionSelector (default measures and filters) against an oracle that recomputes chi2-based Tschuprow T, Kruskal-Wallis H, '
                          'Spearman / Pearson with scipy / pandas and replays the greedy filter: returned features are distinct inputs, at most n_best per measure, in decreasing association, pairwise '
                          'associated at most thresh_corr, equal to the recomputed selection (cases with ties are not judged); X and y unmodified. One known finding (D6, RegressionSelector default '
                          'quantitative measure) is reported as KNOWN-FINDING.'),
